@@ -108,6 +108,20 @@ pub open spec fn kurt_spec(w: Seq<Option<real>>, mp: int, o: U) -> bool {
             oval(o) == 1real / (((n - 2) * (n - 3)) as real) * (((n * n - 1) as real) * (cm4(w) / (v * v)) - ((3 * ((n - 1) * (n - 1))) as real))
         } else { oval(o) == 0real })
 }
+// small polynomial steps (each nonlinear query has at most a handful of monomials: nlsat stays stable)
+pub proof fn lemma_div_mul(a: real, b: real)
+    requires b != 0real,
+    ensures (a / b) * b == a,
+{
+    assert((a / b) * b == a) by(nonlinear_arith) requires b != 0real;
+}
+pub proof fn lemma_cancel(x: real, y: real, d: real)
+    requires d != 0real, x * d == y * d,
+    ensures x == y,
+{
+    assert((x - y) * d == 0real) by(nonlinear_arith) requires x * d == y * d;
+    assert(x - y == 0real) by(nonlinear_arith) requires (x - y) * d == 0real, d != 0real;
+}
 // E3/s^3 - 3(m/s) - (m/s)^3 == m3/s^3   with  s^2 = E2 - m^2
 pub proof fn lemma_skew_core(e3: real, m: real, s: real, e2: real)
     requires s > 0real, s * s == e2 - m * m,
@@ -115,22 +129,35 @@ pub proof fn lemma_skew_core(e3: real, m: real, s: real, e2: real)
         rpow(s, 3) > 0real,
 {
     reveal_with_fuel(rpow, 4);
-    assert(rpow(s, 3) == s * s * s) by(nonlinear_arith) requires rpow(s, 3) == s * (s * (s * 1real));
-    assert(rpow(m / s, 3) == (m / s) * (m / s) * (m / s)) by(nonlinear_arith) requires rpow(m / s, 3) == (m / s) * ((m / s) * ((m / s) * 1real));
-    let s3 = s * s * s;
-    assert(s3 > 0real) by(nonlinear_arith) requires s > 0real, s3 == s * s * s;
+    let ss = s * s;
+    let s3 = ss * s;
+    assert(ss > 0real) by(nonlinear_arith) requires s > 0real, ss == s * s;
+    assert(s3 > 0real) by(nonlinear_arith) requires s > 0real, ss > 0real, s3 == ss * s;
+    assert(rpow(s, 3) == s3) by(nonlinear_arith) requires rpow(s, 3) == s * (s * (s * 1real)), ss == s * s, s3 == ss * s;
     let q1 = e3 / s3;
     let q2 = m / s;
-    assert(q1 * s3 == e3) by(nonlinear_arith) requires q1 == e3 / s3, s3 > 0real;
-    assert(q2 * s == m) by(nonlinear_arith) requires q2 == m / s, s > 0real;
-    let lhs = q1 - 3real * q2 - q2 * q2 * q2;
+    lemma_div_mul(e3, s3);
+    lemma_div_mul(m, s);
+    let q22 = q2 * q2;
+    let q23 = q22 * q2;
+    assert(rpow(q2, 3) == q23) by(nonlinear_arith) requires rpow(q2, 3) == q2 * (q2 * (q2 * 1real)), q22 == q2 * q2, q23 == q22 * q2;
+    // q2 * s3 == m * ss ; q23 * s3 == m^3 ; m * ss == m*e2 - m^3
+    assert(q2 * s3 == m * ss) by(nonlinear_arith) requires q2 * s == m, s3 == ss * s;
+    let mm = m * m;
+    assert(q22 * ss == mm) by(nonlinear_arith) requires q2 * s == m, q22 == q2 * q2, ss == s * s, mm == m * m;
+    assert(q23 * s3 == mm * m) by(nonlinear_arith) requires q22 * ss == mm, q2 * s == m, q23 == q22 * q2, s3 == ss * s;
+    assert(m * ss == m * e2 - mm * m) by(nonlinear_arith) requires ss == e2 - mm;
+    let lhs = q1 - 3real * q2 - q23;
     let num = e3 - 3real * m * e2 + 2real * m * m * m;
-    assert(lhs * s3 == num) by(nonlinear_arith)
-        requires lhs == q1 - 3real * q2 - q2 * q2 * q2, q1 * s3 == e3, q2 * s == m, s3 == s * s * s, s * s == e2 - m * m,
-            num == e3 - 3real * m * e2 + 2real * m * m * m;
+    assert(mm * m == m * m * m);
+    assert(lhs * s3 == q1 * s3 - 3real * (q2 * s3) - q23 * s3) by(nonlinear_arith) requires lhs == q1 - 3real * q2 - q23;
+    let a1 = q1 * s3; let a2 = q2 * s3; let a3 = q23 * s3; let c1 = m * ss; let c2 = mm * m; let c3 = m * e2;
+    assert(num == e3 - 3real * c3 + 2real * c2) by(nonlinear_arith) requires num == e3 - 3real * m * e2 + 2real * m * m * m, c3 == m * e2, c2 == mm * m, mm == m * m;
+    assert(lhs * s3 == num);
     let rhs = num / s3;
-    assert(rhs * s3 == num) by(nonlinear_arith) requires rhs == num / s3, s3 > 0real;
-    assert(lhs == rhs) by(nonlinear_arith) requires lhs * s3 == num, rhs * s3 == num, s3 > 0real;
+    lemma_div_mul(num, s3);
+    lemma_cancel(lhs, rhs, s3);
+    assert(s * s * s == s3);
 }
 // (E4 - 4 m E3)/v^2 + 6 m^2/v + 3 (m^2/v)^2 == m4 / v^2   with  v = E2 - m^2
 pub proof fn lemma_kurt_core(e4: real, e3: real, m: real, v: real, e2: real)
@@ -140,21 +167,30 @@ pub proof fn lemma_kurt_core(e4: real, e3: real, m: real, v: real, e2: real)
         v * v > 0real,
 {
     reveal_with_fuel(rpow, 3);
-    assert(rpow(m * m / v, 2) == (m * m / v) * (m * m / v)) by(nonlinear_arith) requires rpow(m * m / v, 2) == (m * m / v) * ((m * m / v) * 1real);
     let v2 = v * v;
     assert(v2 > 0real) by(nonlinear_arith) requires v > 0real, v2 == v * v;
-    let a = (e4 - 4real * m * e3) / v2;
-    let b = m * m / v;
-    assert(a * v2 == e4 - 4real * m * e3) by(nonlinear_arith) requires a == (e4 - 4real * m * e3) / v2, v2 > 0real;
-    assert(b * v == m * m) by(nonlinear_arith) requires b == m * m / v, v > 0real;
-    let lhs = a + 6real * b + 3real * (b * b);
+    let mm = m * m;
+    let t = e4 - 4real * m * e3;
+    let a = t / v2;
+    let b = mm / v;
+    lemma_div_mul(t, v2);
+    lemma_div_mul(mm, v);
+    let bb = b * b;
+    assert(rpow(b, 2) == bb) by(nonlinear_arith) requires rpow(b, 2) == b * (b * 1real), bb == b * b;
+    assert(b * v2 == mm * v) by(nonlinear_arith) requires b * v == mm, v2 == v * v;
+    assert(bb * v2 == mm * mm) by(nonlinear_arith) requires b * v == mm, bb == b * b, v2 == v * v;
+    assert(mm * v == mm * e2 - mm * mm) by(nonlinear_arith) requires v == e2 - mm;
+    let lhs = a + 6real * b + 3real * bb;
+    assert(lhs * v2 == a * v2 + 6real * (b * v2) + 3real * (bb * v2)) by(nonlinear_arith) requires lhs == a + 6real * b + 3real * bb;
     let num = e4 - 4real * m * e3 + 6real * m * m * e2 - 3real * m * m * m * m;
-    assert(lhs * v2 == num) by(nonlinear_arith)
-        requires lhs == a + 6real * b + 3real * (b * b), a * v2 == e4 - 4real * m * e3, b * v == m * m, v2 == v * v, v == e2 - m * m,
-            num == e4 - 4real * m * e3 + 6real * m * m * e2 - 3real * m * m * m * m;
+    assert(6real * m * m * e2 == 6real * (mm * e2)) by(nonlinear_arith) requires mm == m * m;
+    assert(3real * m * m * m * m == 3real * (mm * mm)) by(nonlinear_arith) requires mm == m * m;
+    let c1 = mm * e2; let c2 = mm * mm;
+    assert(num == t + 6real * c1 - 3real * c2);
+    assert(lhs * v2 == num);
     let rhs = num / v2;
-    assert(rhs * v2 == num) by(nonlinear_arith) requires rhs == num / v2, v2 > 0real;
-    assert(lhs == rhs) by(nonlinear_arith) requires lhs * v2 == num, rhs * v2 == num, v2 > 0real;
+    lemma_div_mul(num, v2);
+    lemma_cancel(lhs, rhs, v2);
 }
 
 // A-LEN: products of window counts stay far inside usize for series shorter than 2^31
